@@ -337,7 +337,37 @@ func (sc *vScn) frame(m *ServerComMessage) string {
 	return "frame ?"
 }
 
+// push receipts handed to the user cache by sendPush (what=msg only), rendered as frames of "session" 0
+func (sc *vScn) emitPush() {
+	for {
+		select {
+		case req := <-globals.usersUpdate:
+			if req == nil || req.PushRcpt == nil || req.PushRcpt.Payload.What != "msg" {
+				continue
+			}
+			r := req.PushRcpt
+			var to []int
+			for uid := range r.To {
+				to = append(to, sc.uidIdx[uid])
+			}
+			sort.Ints(to)
+			var ts []string
+			for _, i := range to {
+				ts = append(ts, strconv.Itoa(i))
+			}
+			ch := ""
+			if r.Channel != "" {
+				ch = " chan=" + r.Channel
+			}
+			fmt.Fprintf(sc.out, "S0 push seq=%d from=%d to=%s%s\n", r.Payload.SeqId, sc.uidx(r.Payload.From), strings.Join(ts, ","), ch)
+		default:
+			return
+		}
+	}
+}
+
 func (sc *vScn) emitFrames() {
+	sc.emitPush()
 	idxs := make([]int, 0, len(sc.sess))
 	for i := range sc.sess {
 		idxs = append(idxs, i)
@@ -613,6 +643,7 @@ func vInitServer(t *testing.T) {
 		globals.maxMessageSize = 1 << 18
 		globals.maxTagCount = 16
 		globals.sessionStore = NewSessionStore(time.Hour)
+		globals.usersUpdate = make(chan *UserCacheReq, 1<<16)
 		globals.hub = newHub()
 		vWaitQuiet(nil)
 	})
